@@ -58,7 +58,20 @@ Theorems (coq/theories/C08/Property.v, all "Closed under the global context"; no
   C08_sharded_never_overwrites   run_sharded under any interruption leaves every pre-existing path unchanged.
   C08_invalidate_only_if_replaced  invalid afterwards -> invalid before, or samefile(dest) and dest replaced.
   C08_bystanders_untouched       a single-file save never changes any other pre-existing path.
-Interruptions injected by the generator: OSError at every FS effect; os._exit at every effect; and from tensors
+  C08_samefile_valueerror_refuted  KNOWN FINDING reproduced by the model: without `nul_free` (no written external
+                                 tensor has a NUL in its path) C08_exception_clean is false - os.path.samefile
+                                 raises ValueError after mkdtemp and outside the try, the temp dir stays.
+                                 C08_exception_clean / _tensors_read_old carry the hypothesis `nul_free`.
+Known findings (known_findings.d/C08.json, replayed on the implementation on every run, fixes + demos in
+proposed_fixes/C08-*.diff): samefile-valueerror-leaks-tempdir (above; in the model: ASameFileNul) and
+hardlink-alias-invalidated (a tensor reading through ANOTHER hard link of the destination passes samefile and
+is invalidated although its own file keeps the old inode and bytes; the Coq model has no hard links - its
+samefile is path based - so this one lives in the Python oracle only).
+Interruptions injected by the generator: os.replace is additionally failed with PermissionError (EACCES,
+EPERM), once and persistently (every retry fails too); after every injected fault every later effect - the
+effects that only exist on error paths - is also a kill point (ctl with both crash_at and fault_at), and the
+log after a fault must equal the model's (an extra os.remove(destination) breaks it).  Scenarios contain a
+second data file with the SAME relative location in another base directory (b/m.data vs m.data). OSError at every FS effect; os._exit at every effect; and from tensors
 (lazy evaluation, third-party tofile between two chunks) and callbacks: RuntimeError, KeyboardInterrupt and
 SystemExit (serial and max_workers>1) - the last two are what a Ctrl-C / sys.exit() in a SIGTERM handler look
 like to the save, and they bypass any `except Exception` cleanup.
@@ -86,7 +99,12 @@ Mutants tried (scratch worktree /tmp/wt-C08, VERIF_REPO), all reported VIOLATION
                                                          -> oracle replay (SystemExit/KeyboardInterrupt from a tensor or
                                                             callback leaves .m.data.XXXX/ behind); before BaseException
                                                             kinds were injected this was only a correspondence break
-Unchanged tree: quiet for VERIF_SEED 0..4.
+  seeded C08-r2m1 (overwritten detection cached by tensor.location) -> oracle replay (tensor of b/m.data invalidated,
+                                                            file not replaced); r2m2 (PermissionError handler unlinks the
+                                                            destination and retries) -> oracle replays (persistent EACCES:
+                                                            destination gone after the failed save; fault then kill between
+                                                            unlink and retry); r2m3 -> oracle replay
+Unchanged tree: quiet for VERIF_SEED 0..4 (two KNOWN-FINDING lines).
 """
 
 from __future__ import annotations
@@ -117,6 +135,9 @@ class Tok:
     def __call__(self, comps) -> str:
         out = []
         for c in comps:
+            if c == "NUL":                     # a component with an embedded NUL character: token 0 (Model.has_nul)
+                out.append(cN(0))
+                continue
             if c not in self.ids:
                 self.ids[c] = len(self.ids) + 1
             out.append(cN(self.ids[c]))
@@ -155,6 +176,8 @@ def c_ob(e, tok) -> str:
         return f"OMkdtemp {tok(e[1])}"
     if k == "samefile":
         return f"OSameFile {tok(e[1])} {tok(e[2])} {cbool(e[3])}"
+    if k == "samefile_err":
+        return f"OSameFileErr {tok(e[1])} {tok(e[2])}"
     if k == "open" and e[2] == "wb":
         return f"OOpenW {tok(e[1])}"
     if k == "callback":
@@ -250,7 +273,7 @@ def scenario_terms(scn: dict, root: str, tok: Tok, tag: str):
             h = len(tens)
             handle_of[i] = h
             m = None
-            if t.get("preload"):
+            if t.get("preload") and "\0" not in t["file"]:
                 with open(os.path.join(root, t["file"]), "rb") as f:
                     m = f.read()
             tens.append("{| t_path := %s; t_off := %s; t_len := %s; t_valid := true; t_map := %s |}" % (
@@ -468,6 +491,16 @@ def gen_scenario(rng, sharded: bool = False) -> dict:
                             "off": rng.randrange(0, len(old) - ln + 1), "len": ln, "preload": rng.random() < 0.5})
         else:
             tensors.append({"kind": "lazy_raise", "n": thr + 2, "exc": gen_exc(rng)})
+    if req == "m.data" and not sharded and rng.random() < 0.4:
+        # a different data file with the SAME relative location in another base directory
+        dirs.append("b")
+        other = [rng.randrange(1, 256) for _ in range(20)]
+        files["b/m.data"] = {"kind": "file", "bytes": other, "mode": 0o644}
+        for _ in range(rng.choice([1, 1, 2])):
+            ln = thr + rng.choice([1, 3, 6])
+            t = {"kind": "ext", "file": "b/m.data", "base": "b", "off": rng.randrange(0, 20 - ln + 1), "len": ln,
+                 "preload": rng.random() < 0.5}
+            tensors.insert(rng.randrange(len(tensors) + 1), t)
     nbig = sum(1 for t in tensors if tensor_nbytes(t) > thr)
     cb = rng.choice([None, None, "ok", "ok"] + ([{"at": rng.randrange(nbig), "exc": gen_exc(rng)}] * 2 if nbig else []))
     scn = {"files": files, "dirs": dirs, "req": req, "threshold": thr, "chunk": rng.choice([1, 3, 5, 8, 64]),
@@ -542,30 +575,55 @@ def exercise(ck, scn: dict, tag: str, root: str, kills: bool = True, faults: boo
         ck.hist("effect_kinds", k, kinds.count(k))
     n = ctl.n
     ck.count()
-    # every effect index failed in-process
+    # every effect index failed in-process; os.replace additionally with the PermissionError family, once and
+    # persistently (a retry fails again); after every fault, every later effect (the handlers' effects, i.e.
+    # effects that only exist on error paths) is also used as a kill point
     if faults:
+        import errno as _e
         for k in range(n):
             kind = kinds_at(ctl, k)
             if kind not in S.FAULTABLE:
                 continue
-            b2, c2, out2 = S.run_save(scn, root, "fault", k)
-            after2 = snapshot(root)
-            log2 = S.canon_log(c2.log, canon)
-            ck.count()
-            ck.hist("fault_kinds", kind)
-            ck.hist("fault_outcomes", c_sig(out2))
-            bad = oracle(scn, root, b2.before, after2, "ok" if out2[0] == "ok" else "raise", kind, new_bytes,
-                         tens_before, b2)
-            if bad:
-                sr.oracle_failures.append({"scenario": scn, "mode": "fault", "index": k, "kind": kind,
-                                           "failures": bad})
-            sr.checks.append((
-                f"agree_full {run_term(scn, tag, None, k)} {c_sig(out2)} {clist(c_ob(e, tok) for e in log2)} "
-                f"{c_fs(S.observe(root, canon), tok)} {c_tobs(S.tensor_obs(b2))}",
-                {"scenario": scn, "mode": "fault", "index": k, "kind": kind,
-                 "impl_log": [list(map(str, e)) for e in log2], "impl_outcome": c_sig(out2)}))
-            for t in b2.ext:
-                t.release()
+            variants = [(None, False)]
+            if kind == "replace":
+                variants += [(_e.EACCES, False), (_e.EPERM, False), (_e.EACCES, True), (_e.EPERM, True)]
+            for err, persistent in variants:
+                b2, c2, out2 = S.run_save(scn, root, "fault", k, err, persistent)
+                after2 = snapshot(root)
+                log2 = S.canon_log(c2.log, canon)
+                ck.count()
+                label = kind + ("" if err is None else ":" + _e.errorcode[err] + ("*" if persistent else ""))
+                ck.hist("fault_kinds", label)
+                ck.hist("fault_outcomes", c_sig(out2))
+                bad = oracle(scn, root, b2.before, after2, "ok" if out2[0] == "ok" else "raise", kind, new_bytes,
+                             tens_before, b2)
+                desc = {"scenario": scn, "mode": "fault", "index": k, "kind": kind, "errno": err,
+                        "persistent": persistent}
+                if bad:
+                    sr.oracle_failures.append(dict(desc, failures=bad))
+                sr.checks.append((
+                    f"agree_full {run_term(scn, tag, None, k)} {c_sig(out2)} {clist(c_ob(e, tok) for e in log2)} "
+                    f"{c_fs(S.observe(root, canon), tok)} {c_tobs(S.tensor_obs(b2))}",
+                    dict(desc, impl_log=[list(map(str, e)) for e in log2], impl_outcome=c_sig(out2))))
+                for t in b2.ext:
+                    t.release()
+                if persistent or (err is None and kind == "replace"):
+                    continue
+                # fault at k, then death before effect j (j ranges over everything that runs after the fault)
+                for j in range(k + 1, c2.n):
+                    code, before4 = S.run_killed(scn, root, j, fault_at=k, err=err)
+                    after4 = snapshot(root)
+                    ck.count()
+                    ck.hist("fault_then_kill", kind)
+                    if code != 77:
+                        continue
+                    bad = oracle(scn, root, before4, after4, "killed", None, new_bytes, None, None)
+                    d4 = {"scenario": scn, "mode": "fault+kill", "index": j, "fault_index": k, "kind": kind,
+                          "errno": err}
+                    if bad:
+                        sr.oracle_failures.append(dict(d4, failures=bad))
+                    sr.checks.append((
+                        f"agree_fs {run_term(scn, tag, j, k)} SCrash {c_fs(S.observe(root, canon), tok)}", d4))
     # every effect index as a kill point (k = n: the save completes)
     if kills:
         for k in range(n + 1):
@@ -738,6 +796,7 @@ def run(ck) -> None:
         scn["tensors"] = [t for t in scn["tensors"] if t["kind"] != "small"] or scn["tensors"]
         oracle_failures += exercise_parallel(ck, scn, root)
     shutil.rmtree(root, ignore_errors=True)
+    replay_known(ck)
     report(ck, oracle_failures)
     if ck.broken_items and not ck.violations:
         search(ck)
@@ -752,9 +811,49 @@ def report(ck, oracle_failures: list[dict]) -> None:
         if sig in seen or len(seen) >= 4:
             continue
         seen.add(sig)
+        key = is_known(ck, f["scenario"], f["failures"])
+        if key:
+            ck.known_finding(key, next(k["what"] for k in ck._known if k["key"] == key))
+            continue
         small = shrink(ck, f)
         ck.violation({"kind": "oracle", "scenario": small["scenario"], "mode": small["mode"],
-                      "index": small["index"], "failures": small["failures"], "broken": ck.broken_items})
+                      "index": small["index"], "fault_index": small.get("fault_index"),
+                      "errno": small.get("errno"), "persistent": small.get("persistent", False),
+                      "failures": small["failures"], "broken": ck.broken_items})
+
+
+def is_known(ck, scn: dict, failures: list[str]) -> str | None:
+    """Map an oracle failure to a known finding by its site (shape of the input + kind of failure)."""
+    keys = {k["key"] for k in ck._known if k.get("status") == "known"}
+    nul = any("\0" in t.get("file", "") for t in scn["tensors"] if t["kind"] == "ext")
+    if nul and "samefile-valueerror-leaks-tempdir" in keys and \
+            all(x.startswith("left over after a failed save") for x in failures):
+        return "samefile-valueerror-leaks-tempdir"
+    alias = any(t.get("abs") for t in scn["tensors"])
+    if alias and "hardlink-alias-invalidated" in keys and \
+            all("invalidated although its backing file" in x for x in failures):
+        return "hardlink-alias-invalidated"
+    return None
+
+
+def replay_known(ck) -> None:
+    """Every known finding is replayed on the implementation on every run."""
+    for k in ck._known:
+        if k.get("status") != "known":
+            continue
+        root = os.path.join(ck.scratch, "known")
+        try:
+            bad = replay_case(k["witness"], "none", None, root)
+        finally:
+            shutil.rmtree(root, ignore_errors=True)
+        if bad and is_known(ck, k["witness"], bad) == k["key"]:
+            ck.known_finding(k["key"], k["what"])
+        elif bad:
+            ck.violation({"kind": "oracle", "scenario": k["witness"], "mode": "none", "index": None, "failures": bad})
+        else:
+            ck.broken(f"known-finding-stale:{k['key']}",
+                      "the recorded witness no longer fails on the implementation (defect repaired?): remove the "
+                      "finding, drop nul_free/the refuted theorem and update the model")
 
 
 def _oracle_once(ck, scn: dict, mode: str, index) -> list[str]:
@@ -765,7 +864,7 @@ def _oracle_once(ck, scn: dict, mode: str, index) -> list[str]:
         shutil.rmtree(root, ignore_errors=True)
 
 
-def replay_case(scn: dict, mode: str, index, root: str) -> list[str]:
+def replay_case(scn: dict, mode: str, index, root: str, errno=None, persistent=False, fault_index=None) -> list[str]:
     b = S.build(scn, root)
     before = snapshot(root)
     tens_before = S.tensor_obs(b)
@@ -780,11 +879,11 @@ def replay_case(scn: dict, mode: str, index, root: str) -> list[str]:
     if mode == "fault":
         if index >= ctl.n:
             return []
-        b2, c2, out2 = S.run_save(scn, root, "fault", index)
+        b2, c2, out2 = S.run_save(scn, root, "fault", index, errno, persistent)
         kind = next((e[1] for e in c2.log if e[0] == "fail"), None)
         return oracle(scn, root, b2.before, snapshot(root), "ok" if out2[0] == "ok" else "raise", kind, new_bytes,
                       tens_before, b2)
-    _, before3 = S.run_killed(scn, root, index)
+    _, before3 = S.run_killed(scn, root, index, fault_at=fault_index if mode == "fault+kill" else None, err=errno)
     return oracle(scn, root, before3, snapshot(root), "killed", None, new_bytes, None, None)
 
 
@@ -793,14 +892,26 @@ def shrink(ck, f: dict) -> dict:
     cur = json.loads(json.dumps(f))
 
     def failing(scn):
+        """(index, failures, fault_index) of some interruption of the same mode/errno that still fails."""
         root = os.path.join(ck.scratch, "sh")
+        en, pers = cur.get("errno"), cur.get("persistent", False)
         try:
             b, ctl, _ = S.run_save(scn, root)
             n = ctl.n
+            if cur["mode"] == "fault+kill":
+                for k in range(n):
+                    _, c2, _ = S.run_save(scn, root, "fault", k, en)
+                    if not any(e[0] == "fail" for e in c2.log):
+                        continue
+                    for j in range(k + 1, c2.n):
+                        bad = replay_case(scn, "fault+kill", j, root, en, False, k)
+                        if bad:
+                            return j, bad, k
+                return None
             for k in ([None] if cur["mode"] == "none" else range(n + 1)):
-                bad = replay_case(scn, cur["mode"], k, root)
+                bad = replay_case(scn, cur["mode"], k, root, en, pers)
                 if bad:
-                    return k, bad
+                    return k, bad, None
         except Exception:  # noqa: BLE001
             return None
         finally:
@@ -822,7 +933,7 @@ def shrink(ck, f: dict) -> dict:
                     s2["cb"] = "ok"
             r = failing(s2)
             if r:
-                cur.update(scenario=s2, index=r[0], failures=r[1])
+                cur.update(scenario=s2, index=r[0], failures=r[1], fault_index=r[2])
                 changed = True
                 break
         for key, val in (("cb", None), ("max_workers", None), ("chunk", 64)):
@@ -830,7 +941,7 @@ def shrink(ck, f: dict) -> dict:
                 s2 = dict(cur["scenario"], **{key: val})
                 r = failing(s2)
                 if r:
-                    cur.update(scenario=s2, index=r[0], failures=r[1])
+                    cur.update(scenario=s2, index=r[0], failures=r[1], fault_index=r[2])
                     changed = True
     return cur
 
@@ -859,7 +970,8 @@ def replay(rp: dict) -> int:
         return 1
     root = os.path.join(common.SCRATCH_ROOT, f"replay-C08-{os.getpid()}")
     try:
-        bad = replay_case(scn, rp.get("mode", "none"), rp.get("index"), root)
+        bad = replay_case(scn, rp.get("mode", "none"), rp.get("index"), root, rp.get("errno"),
+                          rp.get("persistent", False), rp.get("fault_index"))
     finally:
         shutil.rmtree(root, ignore_errors=True)
     print(json.dumps({"scenario": scn, "mode": rp.get("mode"), "index": rp.get("index"), "failures": bad}, indent=1))
